@@ -1447,6 +1447,37 @@ func c08GenHistory(g *G) {
 		}
 		emit(steps, "seq-random")
 	}
+	// a LONG message written (length bytes b2 / b3 of the Abridged long form non-zero, or an Intermediate prefix with
+	// high bytes set) and, right behind it on the same goroutine, streams whose frames use the long form / prefixes whose
+	// high bytes are zero: whatever a connection keeps of a length prefix (a pooled or shared prefix buffer — seeded change
+	// C08-m18) must not reach the next frame, read or written, of this or of any other connection
+	longFrame := func(md string, words int) string { // announcement, header, body as three segments (body as p<n>)
+		var h []byte
+		if md == "a" {
+			h = []byte{0x7f, byte(words), byte(words >> 8), byte(words >> 16)}
+			if words < 127 {
+				h = []byte{byte(words)}
+			}
+		} else {
+			n := 4 * words
+			h = []byte{byte(n), byte(n >> 8), byte(n >> 16), byte(n >> 24)}
+		}
+		return "d:" + hexD(specAnnounce(md)) + "," + hexD(h) + fmt.Sprintf(",p%d", 4*words)
+	}
+	bigs := []int{1 << 18, 1<<18 + 4, 1 << 20, 3<<18 + 1020}
+	if g.Tier == "thorough" {
+		bigs = append(bigs, 1<<24-4, 1<<24)
+	}
+	for _, big := range bigs {
+		for _, words := range []int{127, 128, 255, 256, 16384} {
+			for _, md := range []string{"a", "i"} {
+				emit([]string{fmt.Sprintf("w:%s:p%d", md, big), longFrame("a", words), fmt.Sprintf("w:a:p%d", 4*words),
+					fmt.Sprintf("w:%s:p%d", md, big), longFrame("i", words), fmt.Sprintf("w:i:p%d", 4*words)}, "seq-long-then-long-form")
+				emit([]string{fmt.Sprintf("t:%s:p%d", md, big), longFrame("a", words), fmt.Sprintf("t:a:p%d", 4*words), longFrame("a", 126)}, "seq-long-then-long-form", "seq-loopback")
+				emit([]string{longFrame(md, big/4), longFrame("a", words), fmt.Sprintf("w:a:p%d", 4*words), longFrame("i", words)}, "seq-long-then-long-form")
+			}
+		}
+	}
 	// the same kinds of streams alone: the fixed table, then random ones
 	for _, h := range []string{"ee000000", "eeeeee00", "eeee00ee", "ee00eeee", "eeefefef", "eedddddd", "ee0000", "ee00", "eeeeeeed",
 		"ee00000004000000aabbccdd", "eeeeee0000000000", "dddddddd", "dddddddd04000000aabbccdd", "dd", "ed", "f0eeeeee", "efeeeeee", "efef", "efdddddd"} {
